@@ -1,0 +1,177 @@
+// Copyright 2025 The Go Authors. All rights reserved.
+// Use of this source code is governed by a BSD-style
+// license that can be found in the LICENSE file.
+
+//go:build verif
+
+package html
+
+// Contracts, spec functions and lemma harnesses for the deductive verifier in /verif (govc).
+// This file is compiled only with -tags verif; it adds no behaviour to the package.
+
+// ---------------------------------------------------------------------------
+// Node link operations (property C41, node.go). "Mutually consistent" is stated locally:
+//
+// kidsOK(p): p's first/last child fields agree with each other and with the end nodes' own links.
+//
+//@ pure
+func kidsOK(p *Node) bool {
+	return (p.FirstChild == nil) == (p.LastChild == nil) &&
+		(p.FirstChild == nil || (p.FirstChild.Parent == p && p.FirstChild.PrevSibling == nil)) &&
+		(p.LastChild == nil || (p.LastChild.Parent == p && p.LastChild.NextSibling == nil))
+}
+
+// Whole-tree acyclicity is out of reach; its one local consequence that the contracts need is a
+// precondition: a node is not its own parent (n.Parent != n).
+//
+// detached(c): no parent and no siblings (the documented requirement on a node to be inserted,
+// and the documented state of a node after RemoveChild).
+//
+//@ pure
+func detached(c *Node) bool {
+	return c.Parent == nil && c.PrevSibling == nil && c.NextSibling == nil
+}
+
+// childOK(c, p): c is linked as a child of p and its four neighbours agree: the previous sibling
+// (or p.FirstChild) points to c, the next sibling (or p.LastChild) points back to c, and both
+// siblings have the same parent.
+//
+//@ pure
+func childOK(c, p *Node) bool {
+	return c.Parent == p &&
+		((c.PrevSibling == nil) == (p.FirstChild == c)) &&
+		((c.NextSibling == nil) == (p.LastChild == c)) &&
+		(c.PrevSibling == nil || (c.PrevSibling.NextSibling == c && c.PrevSibling.Parent == p)) &&
+		(c.NextSibling == nil || (c.NextSibling.PrevSibling == c && c.NextSibling.Parent == p))
+}
+
+//@ func (*Node).InsertBefore(n, newChild, oldChild)
+//@   requires n != nil && newChild != nil && newChild != n && n.Parent != n
+//@   requires detached(newChild)
+//@   requires kidsOK(n)
+//@   requires oldChild != nil ==> childOK(oldChild, n)
+//@   ensures  childOK(newChild, n) && kidsOK(n)
+//@   ensures  newChild.NextSibling == oldChild
+//@   ensures  newChild.PrevSibling == old(ite(oldChild != nil, oldChild.PrevSibling, n.LastChild))
+//@   ensures  oldChild != nil ==> childOK(oldChild, n) && oldChild.PrevSibling == newChild && (old(oldChild.PrevSibling) != oldChild ==> oldChild.NextSibling == old(oldChild.NextSibling))
+//@   ensures  oldChild != nil ==> n.LastChild == old(n.LastChild)
+//@   ensures  oldChild == nil ==> n.LastChild == newChild
+//@   ensures  old(ite(oldChild != nil, oldChild.PrevSibling, n.LastChild)) != nil ==> n.FirstChild == old(n.FirstChild)
+//@   ensures  old(n.Parent) != n ==> n.Parent == old(n.Parent) && n.PrevSibling == old(n.PrevSibling) && n.NextSibling == old(n.NextSibling)
+//@   modifies newChild.Parent, newChild.PrevSibling, newChild.NextSibling, n.FirstChild, n.LastChild
+//@   modifies oldChild.PrevSibling, ite(oldChild != nil, oldChild.PrevSibling, n.LastChild).NextSibling
+//@
+//@ func (*Node).AppendChild(n, c)
+//@   requires n != nil && c != nil && c != n
+//@   requires detached(c)
+//@   requires kidsOK(n)
+//@   ensures  childOK(c, n) && kidsOK(n)
+//@   ensures  n.LastChild == c && c.NextSibling == nil && c.PrevSibling == old(n.LastChild)
+//@   ensures  old(n.LastChild) != nil ==> n.FirstChild == old(n.FirstChild)
+//@   ensures  old(n.LastChild) == nil ==> n.FirstChild == c
+//@   ensures  old(n.Parent) != n ==> n.Parent == old(n.Parent) && n.PrevSibling == old(n.PrevSibling) && n.NextSibling == old(n.NextSibling)
+//@   modifies c.Parent, c.PrevSibling, n.FirstChild, n.LastChild, n.LastChild.NextSibling
+//@
+//@ func (*Node).RemoveChild(n, c)
+//@   requires n != nil && c != nil && n.Parent != n
+//@   requires childOK(c, n) && kidsOK(n)
+//@   ensures  detached(c) && kidsOK(n)
+//@   ensures  n.FirstChild == old(ite(c.PrevSibling == nil, c.NextSibling, n.FirstChild))
+//@   ensures  n.LastChild == old(ite(c.NextSibling == nil, c.PrevSibling, n.LastChild))
+//@   ensures  old(c.PrevSibling) != nil && old(c.PrevSibling) != c ==> old(c.PrevSibling).NextSibling == old(c.NextSibling)
+//@   ensures  old(c.NextSibling) != nil && old(c.NextSibling) != c ==> old(c.NextSibling).PrevSibling == old(c.PrevSibling)
+//@   ensures  old(n.Parent) != n ==> n.Parent == old(n.Parent) && n.PrevSibling == old(n.PrevSibling) && n.NextSibling == old(n.NextSibling)
+//@   modifies c.Parent, c.PrevSibling, c.NextSibling, n.FirstChild, n.LastChild
+//@   modifies c.NextSibling.PrevSibling, c.PrevSibling.NextSibling
+
+// The documented misuse panics, and only it: together with the contracts above (no panic when the
+// new child is detached / the child's parent is n) the harnesses below show the converse. The engine
+// has no "panics when" clause, so the harness runs the real body (usebody) with the explicit-panic
+// obligation switched off (partial nopanic:explicit: the panicking path just ends) and states that
+// the statement after the call is unreachable when the argument is misused.
+//
+//@ lemma
+//@ usebody (*Node).InsertBefore
+//@ partial nopanic:explicit
+//@ requires n != nil && newChild != nil
+//@ ensures returned && old(detached(newChild))
+func lemmaInsertBeforePanics(n, newChild, oldChild *Node) (returned bool) {
+	n.InsertBefore(newChild, oldChild)
+	return true
+}
+
+//@ lemma
+//@ usebody (*Node).AppendChild
+//@ partial nopanic:explicit
+//@ requires n != nil && c != nil
+//@ ensures returned && old(detached(c))
+func lemmaAppendChildPanics(n, c *Node) (returned bool) {
+	n.AppendChild(c)
+	return true
+}
+
+//@ lemma
+//@ usebody (*Node).RemoveChild
+//@ partial nopanic:explicit
+//@ requires n != nil && c != nil
+//@ ensures returned && old(c.Parent) == n
+func lemmaRemoveChildPanics(n, c *Node) (returned bool) {
+	n.RemoveChild(c)
+	return true
+}
+
+// The operations disturb nobody else: every (child x, parent p) pair that was consistent before
+// the call and is not the node being inserted/removed is consistent afterwards, and every parent's
+// first/last fields stay consistent. x and p are arbitrary, so this is the universally quantified
+// statement; it is proved from the contracts above (as a caller sees the operations).
+//
+//@ lemma
+//@ requires n != nil && newChild != nil && newChild != n && n.Parent != n && detached(newChild) && kidsOK(n)
+//@ requires oldChild != nil ==> childOK(oldChild, n)
+//@ requires x != nil && p != nil && x != newChild && childOK(x, p) && kidsOK(p)
+//@ ensures childOK(x, p) && kidsOK(p)
+func lemmaInsertBeforeKeepsOthers(n, newChild, oldChild, x, p *Node) {
+	n.InsertBefore(newChild, oldChild)
+}
+
+//@ lemma
+//@ requires n != nil && c != nil && c != n && detached(c) && kidsOK(n)
+//@ requires x != nil && p != nil && x != c && childOK(x, p) && kidsOK(p)
+//@ ensures childOK(x, p) && kidsOK(p)
+func lemmaAppendChildKeepsOthers(n, c, x, p *Node) {
+	n.AppendChild(c)
+}
+
+//@ lemma
+//@ requires n != nil && c != nil && n.Parent != n && childOK(c, n) && kidsOK(n)
+//@ requires x != nil && p != nil && x != c && childOK(x, p) && kidsOK(p)
+//@ ensures childOK(x, p) && kidsOK(p)
+func lemmaRemoveChildKeepsOthers(n, c, x, p *Node) {
+	n.RemoveChild(c)
+}
+
+// nodePtr names *Node for quantifiers (the spec parser wants a one-word type).
+type nodePtr = *Node
+
+// reparentChildren (used by the adoption agency algorithm): given that every node whose Parent is
+// src or dst is a consistent child of it, it leaves src without children and keeps both child lists
+// consistent; nodes under other parents are not touched. (Termination is not proved: it needs the
+// finiteness/acyclicity of the child list, which is a whole-tree property.)
+//
+//@ func reparentChildren(dst, src)
+//@   requires dst != nil && src != nil && dst != src && src.Parent != src && dst.Parent != dst && dst.Parent != src
+//@   requires kidsOK(src) && kidsOK(dst)
+//@   requires forall x nodePtr :: x != nil && x.Parent == src ==> childOK(x, src)
+//@   requires forall x nodePtr :: x != nil && x.Parent == dst ==> childOK(x, dst)
+//@   ensures  src.FirstChild == nil && src.LastChild == nil
+//@   ensures  kidsOK(src) && kidsOK(dst)
+//@   ensures  forall x nodePtr :: x != nil && x.Parent == dst ==> childOK(x, dst)
+//@   ensures  forall x nodePtr :: x != nil && old(x.Parent) != src && old(x.Parent) != dst ==> x.Parent == old(x.Parent)
+//@   ensures  forall x nodePtr :: x != nil && (old(x.Parent) == src || old(x.Parent) == dst) ==> (x.Parent == dst || x.Parent == src)
+//@   modifies Node.Parent, Node.PrevSibling, Node.NextSibling, Node.FirstChild, Node.LastChild
+//@   loop 1 invariant kidsOK(src) && kidsOK(dst)
+//@   loop 1 invariant forall x nodePtr :: x != nil && x.Parent == src ==> childOK(x, src)
+//@   loop 1 invariant forall x nodePtr :: x != nil && x.Parent == dst ==> childOK(x, dst)
+//@   loop 1 invariant forall x nodePtr :: x != nil && old(x.Parent) != src && old(x.Parent) != dst ==> x.Parent == old(x.Parent)
+//@   loop 1 invariant forall x nodePtr :: x != nil && (old(x.Parent) == src || old(x.Parent) == dst) ==> (x.Parent == dst || x.Parent == src)
+//@   loop 1 invariant src.Parent == old(src.Parent) && dst.Parent == old(dst.Parent)
